@@ -1,11 +1,11 @@
-\* (E) exhaustive, quick tier: all five candidate fixes; 3 requests over the full universe, 1 line per forwarder (DapWire_fixed_full.cfg: 2 lines)
+\* (E) exhaustive: the model with all five candidate fixes applied satisfies the reference
 SPECIFICATION Spec
 CONSTANTS
   MaxReq = 3
   Universe <- UniverseFull
   QMaxEv = 0
   PreLines = 1
-  PostLines = 0
+  PostLines = 1
   SeqUnderLock = TRUE
   RespondAfter = TRUE
   FwdHonoursTerm = TRUE
